@@ -341,8 +341,13 @@ fn greedy<F: FnMut(&mut Parser, TokenSet) -> bool>(
         if !f(parser, recovery) {
             return false;
         }
-        while f(parser, recovery) {
-            continue;
+        // stop if `f` claims success without consuming anything (it may have
+        // only reported an error), or we would never terminate
+        loop {
+            let before = parser.nth_range(0).start;
+            if !f(parser, recovery) || parser.nth_range(0).start == before {
+                break;
+            }
         }
         true
     }
